@@ -357,47 +357,91 @@ func zzvName() string {
 // zzvStep performs one symbolic pinner operation and the corresponding model transition.
 // faults: inject fetch faults / cancelled contexts into this operation.
 // Returns the operation kind and whether it failed.
-func zzvStep(p *pinner, d *zzvDag, m *zzvModel, faults bool) (int, bool) {
+type zzvStepOpt struct {
+	faults  bool // inject fetch faults into the operation; also offer the operations with a cancelled context
+	setup   bool // restricted menu for a history prefix: Pin recursive/direct of node 0 or 1 with a 1-byte name
+	succeed bool // assume the operation succeeds (a failed prefix operation is a shorter history)
+	assert  bool // check the per-operation outcome rules (C22 ids)
+	skipMode bool // leave PinWithMode out of the menu
+}
+
+type zzvOpInfo struct {
+	op     int  // 0 Pin recursive, 1 Pin direct, 2 PinWithMode, 3 Unpin, 4 Update
+	cid    int  // target (Update: from)
+	to     int  // Update only
+	flag   bool // Update: unpin
+	failed bool
+}
+
+func zzvStep(p *pinner, d *zzvDag, m *zzvModel, o zzvStepOpt) zzvOpInfo {
+	info := zzvOpInfo{cid: -1, to: -1}
 	nOps := 4
-	if faults {
+	if o.faults {
 		nOps = 5
 	}
+	if o.setup {
+		nOps = 1
+	}
 	op := verifrt.NondetRange("op", 0, nOps)
+	if o.skipMode && op == 2 {
+		verifrt.Assume(false)
+	}
 	ctx, cancel := context.WithCancel(context.Background())
 	defer cancel()
 	d.cancel, d.fired, d.fault, d.fk = cancel, false, 0, 0
 	pre := false
 	if op == 5 {
-		// any operation with an already cancelled context
+		// any operation with an already cancelled context (fixed arguments: nothing may happen anyway)
 		pre = true
 		cancel()
 		op = verifrt.NondetRange("cop", 0, 4)
-	} else if faults {
+	} else if o.faults {
 		d.fault = verifrt.NondetU8("fault")
 		verifrt.Assume(d.fault <= 2)
 		d.fk = -1
+	}
+	pickCid := func() int {
+		if pre {
+			return 0
+		}
+		if o.setup {
+			return verifrt.NondetRange("cid", 0, 1)
+		}
+		return verifrt.NondetRange("cid", 0, d.n-1)
+	}
+	pickName := func() string {
+		if pre {
+			return "x"
+		}
+		if o.setup {
+			return verifrt.NondetString("name", 1)
+		}
+		return zzvName()
 	}
 	var err error
 	mustFail := false
 	switch op {
 	case 0: // Pin, recursive (fetches the graph)
-		i := verifrt.NondetRange("cid", 0, d.n-1)
-		name := zzvName()
+		i := pickCid()
+		info.cid = i
+		name := pickName()
 		err = p.Pin(ctx, &zzvNode{d: d, i: i}, true, name)
 		if err == nil {
 			m.set(i, zzvRec, name)
 		}
 	case 1: // Pin, direct
-		i := verifrt.NondetRange("cid", 0, d.n-1)
-		name := zzvName()
+		i := pickCid()
+		info.cid = i
+		name := pickName()
 		mustFail = m.mode[i] == zzvRec
 		err = p.Pin(ctx, &zzvNode{d: d, i: i}, false, name)
 		if err == nil {
 			m.set(i, zzvDir, name)
 		}
 	case 2: // PinWithMode, any mode value
-		i := verifrt.NondetRange("cid", 0, d.n-1)
-		name := zzvName()
+		i := pickCid()
+		info.cid = i
+		name := pickName()
 		mode := ipfspinner.Mode(verifrt.NondetI64("mode"))
 		err = p.PinWithMode(ctx, d.cids[i], mode, name)
 		if mode == ipfspinner.Recursive {
@@ -413,13 +457,14 @@ func zzvStep(p *pinner, d *zzvDag, m *zzvModel, faults bool) (int, bool) {
 			mustFail = true
 		}
 	case 3: // Unpin
-		i := verifrt.NondetRange("cid", 0, d.n-1)
+		i := pickCid()
+		info.cid = i
 		rec := verifrt.NondetBool("unpinrec")
 		err = p.Unpin(ctx, d.cids[i], rec)
 		switch m.mode[i] {
 		case zzvNone:
 			mustFail = true
-			if !pre {
+			if !pre && o.assert {
 				verifrt.Assert("C22.unpin-not-pinned-error", errors.Is(err, ipfspinner.ErrNotPinned))
 			}
 		case zzvRec:
@@ -431,9 +476,13 @@ func zzvStep(p *pinner, d *zzvDag, m *zzvModel, faults bool) (int, bool) {
 			m.clear(i)
 		}
 	case 4: // Update
-		from := verifrt.NondetRange("cid", 0, d.n-1)
-		to := verifrt.NondetRange("cid", 0, d.n-1)
+		from := pickCid()
+		to := 1
+		if !pre {
+			to = verifrt.NondetRange("cid", 0, d.n-1)
+		}
 		unpin := verifrt.NondetBool("updunpin")
+		info.cid, info.to, info.flag = from, to, unpin
 		mustFail = m.mode[from] != zzvRec || (from != to && m.mode[to] == zzvRec)
 		err = p.Update(ctx, d.cids[from], d.cids[to], unpin)
 		if err == nil && from != to {
@@ -447,11 +496,21 @@ func zzvStep(p *pinner, d *zzvDag, m *zzvModel, faults bool) (int, bool) {
 	}
 	d.fault, d.fk = 0, 0
 	verifrt.Observe("err", err != nil)
-	if mustFail {
-		verifrt.Assert("C22.op-must-fail", err != nil)
-	} else if err != nil {
-		// an error needs a cause: cancelled context or a block that could not be fetched
-		verifrt.Assert("C22.op-unexpected-error", pre || d.fired)
+	if d.fired && (op == 0 || op == 4) {
+		// a block of the graph to be pinned could not be fetched: the pin must not be recorded
+		mustFail = true
 	}
-	return op, err != nil
+	if o.assert {
+		if mustFail {
+			verifrt.Assert("C22.op-must-fail", err != nil)
+		} else if err != nil {
+			// an error needs a cause: cancelled context or a block that could not be fetched
+			verifrt.Assert("C22.op-unexpected-error", pre || d.fired)
+		}
+	}
+	if o.succeed {
+		verifrt.Assume(err == nil)
+	}
+	info.op, info.failed = op, err != nil
+	return info
 }
